@@ -53,7 +53,8 @@ def run_scenario(job):
                         lg.comment("a comment line")
                         lg._append("%s\t%d\t{ this is not json\n" % (timestamp(BASE + r["ts"]), serial))
                         # ... and records whose payload is JSON all right, but no register map: a list, a number, true
-                        for junk in ("[40001, 12]", "7", "true"):
+                        lg._append("\n")               # (a blank line in the middle of a file is no end of file)
+                        for junk in ("[40001, 12]", "7", "true", "{\"40002\": null}", "{\"40002\": [1]}"):
                             lg._append("%s\t%d\t%s\n" % (timestamp(BASE + r["ts"]), serial, junk))
                 if variant == 5:
                     lg.comment("history file ends")
